@@ -634,6 +634,10 @@ func (c *FnCtx) checkFrame(frame *Frame, st *State, env *SpecEnv, pos token.Pos)
 					add(arrName(a.Space, a.Key, joinPath(a.Path, lf.Path), lf.Sort), a.Idx[0])
 				}
 			}
+		case "sent":
+			if ch, err := c.eval(entry, m.Expr); err == nil {
+				add(arrName("S", "sent", "", "Int"), ch.S)
+			}
 		}
 	}
 	var names []string
